@@ -184,6 +184,7 @@ class Ctx:
         base = f'{self.ob_prefix}/{kind}'
         n = sum(1 for o in self.obligations if o.id.startswith(base + '#'))
         ob = Obligation(f'{base}#{n + 1}', kind, desc, hyps, goal, lineno, tactic, meta)
+        ob.n_axioms = len(self.axioms)      # only what was known when the obligation arose (no lemma proves itself)
         self.ob_seen[key] = ob
         self.obligations.append(ob)
         return ob
